@@ -14,8 +14,10 @@
 #define SPEC_BZ_BITS  15
 #define SPEC_BZ_MASK  32767
 #define SPEC_AVG      32768
-#define SPEC_AUTO_MIN(mn) ((mn) > SPEC_AVG / 4 ? (mn) : SPEC_AVG / 4)
-#define SPEC_AUTO_MAX(mx) ((mx) < SPEC_AVG * 4 ? (mx) : SPEC_AVG * 4)
+/* clamp(v, mn, mx) for mn <= mx */
+#define SPEC_CLAMP(v, mn, mx) ((v) < (mn) ? (mn) : (v) > (mx) ? (mx) : (v))
+#define SPEC_AUTO_MIN(mn, mx) SPEC_CLAMP(SPEC_AVG / 4, mn, mx)
+#define SPEC_AUTO_MAX(mn, mx) SPEC_CLAMP(SPEC_AVG * 4, mn, mx)
 
 /* Writes INTO index nodes (the work item, the previous last node's next link) by callees.  Units whose
  * function under contract never touches an index node (zck_write: it only passes the context on) use
@@ -70,7 +72,7 @@ bool verif_winit(zckCtx *zck, zckComp *comp);
 #define WR_BOUNDS(z) ((z)->chunk_min_size >= 1 && (z)->chunk_min_size <= (z)->chunk_max_size && \
     ((z)->manual_chunk != 0 ? (z)->comp.dc_data_size <= (size_t)(z)->chunk_max_size : \
      ((z)->buzhash_width == SPEC_BZ_WIDTH && (z)->buzhash_bitmask == SPEC_BZ_MASK && \
-      (z)->chunk_auto_min == SPEC_AUTO_MIN((z)->chunk_min_size) && (z)->chunk_auto_max == SPEC_AUTO_MAX((z)->chunk_max_size) && \
+      (z)->chunk_auto_min == SPEC_AUTO_MIN((z)->chunk_min_size, (z)->chunk_max_size) && (z)->chunk_auto_max == SPEC_AUTO_MAX((z)->chunk_min_size, (z)->chunk_max_size) && \
       (z)->chunk_auto_min <= (z)->chunk_auto_max && (z)->comp.dc_data_size <= (size_t)(z)->chunk_auto_max)))
 #define BZ_WF(b) ((b)->window == NULL || ((b)->window_size >= 1 && OWNED_RW_OK((b)->window, (b)->window_size) && \
     (b)->window_fill >= 0 && (b)->window_fill <= (b)->window_size && (b)->window_loc >= 0 && (b)->window_loc < (b)->window_size))
@@ -273,7 +275,7 @@ V_ENSURES(!__CPROVER_return_value || (V_OLD(zck->error_state) == 0 && V_OLD(zck-
 V_ENSURES(!__CPROVER_return_value || (zck->chunk_min_size >= 1 && zck->chunk_min_size <= zck->chunk_max_size)) /*@C01,C16.comp_init.min_le_max*/
 V_ENSURES(!__CPROVER_return_value || ((V_OLD(zck->chunk_min_size) == 0 || zck->chunk_min_size == V_OLD(zck->chunk_min_size)) && (V_OLD(zck->chunk_max_size) == 0 || zck->chunk_max_size == V_OLD(zck->chunk_max_size)))) /*@C16.comp_init.configured_sizes_kept*/
 V_ENSURES(!__CPROVER_return_value || zck->manual_chunk != 0 || (zck->buzhash_width == SPEC_BZ_WIDTH && zck->buzhash_bitmask == SPEC_BZ_MASK)) /*@C16.comp_init.window_and_mask_pinned*/
-V_ENSURES(!__CPROVER_return_value || zck->manual_chunk != 0 || (zck->chunk_auto_min == SPEC_AUTO_MIN(zck->chunk_min_size) && zck->chunk_auto_max == SPEC_AUTO_MAX(zck->chunk_max_size))) /*@C16.comp_init.effective_bounds_are_quarter_and_fourfold_average_clamped*/
+V_ENSURES(!__CPROVER_return_value || zck->manual_chunk != 0 || (zck->chunk_auto_min == SPEC_AUTO_MIN(zck->chunk_min_size, zck->chunk_max_size) && zck->chunk_auto_max == SPEC_AUTO_MAX(zck->chunk_min_size, zck->chunk_max_size))) /*@C16.comp_init.effective_bounds_are_quarter_and_fourfold_average_clamped*/
 V_ENSURES(!__CPROVER_return_value || zck->manual_chunk != 0 || zck->chunk_auto_min <= zck->chunk_auto_max) /*@C01,C16.comp_init.effective_min_not_above_effective_max*/
 V_ENSURES(!__CPROVER_return_value || (zck->comp.dc_data_size == 0 && zck->work_index_item == NULL)) /*@C01.comp_init.nothing_pending_after_the_dictionary_chunk*/
 V_ENSURES(!__CPROVER_return_value || zck->index.count == V_OLD(zck->index.count) + 1) /*@C01.comp_init.dictionary_entry_exists_whatever_the_descriptor_numbers*/
